@@ -38,6 +38,7 @@ Definition D_reacquirers := Eval vm_compute in reacquirers funcs. Print D_reacqu
 Definition D_declared_inferred := Eval vm_compute in
   forallb (fun d => existsb (fun f => String.eqb (fst d) (snd f)) inferable) guards_declared.
 Print D_declared_inferred.
+Definition D_stale_declarations := Eval vm_compute in stale_declarations. Print D_stale_declarations.
 Definition D_guards := Eval vm_compute in (List.length guards_declared, List.length guards_inferred, List.length entries).
 Print D_guards.
 Definition D_confined := Eval vm_compute in confined guards fetchers. Print D_confined.
